@@ -145,25 +145,149 @@ fn ord_coq(o: std::cmp::Ordering) -> &'static str {
     }
 }
 
+#[derive(Clone, Debug)]
+enum Spec {
+    Round(LKey),
+    From(u8, Vec<u8>),
+    Order([u8; 2], Vec<u8>, [u8; 2], Vec<u8>),
+}
+
+/// Deterministic boundary family (identical for every seed): every slice/length comparison of the
+/// mapper at -1/0/+1, empty/single/maximal keys, extreme bytes, and the prefix-order shapes.
+fn boundary_family() -> Vec<(Spec, String)> {
+    let mut v: Vec<(Spec, String)> = Vec::new();
+    let c = |s: &str| s.to_string();
+    // --- round trips ---
+    for n in [vec![0u8; 30], vec![0xff; 30], (0..30u8).collect::<Vec<_>>(), { let mut x = vec![0u8; 30]; x[29] = 1; x }, { let mut x = vec![0u8; 30]; x[0] = 0x80; x }] {
+        v.push((Spec::Round(LKey::Node(n)), c("bf_round_node")));
+    }
+    for p in [0u8, 1, 127, 128, 254, 255] {
+        v.push((Spec::Round(LKey::Part(p)), c("bf_round_partition")));
+        v.push((Spec::Round(LKey::Field(p)), c("bf_round_field")));
+    }
+    for k in [vec![], vec![0u8], vec![0xff], vec![0; 19], vec![0xff; 20], vec![7; 21], vec![1; 255], vec![2; 256], vec![0xff; 1024], vec![3; 1025]] {
+        v.push((Spec::Round(LKey::Map(k.clone())), c(if k.is_empty() { "bf_round_map_empty" } else { "bf_round_map" })));
+        for p in [[0u8, 0], [0xff, 0xff], [0, 0xff], [0xff, 0]] {
+            v.push((Spec::Round(LKey::Sorted(p, k.clone())), c(if k.is_empty() { "bf_round_sorted_empty" } else { "bf_round_sorted" })));
+        }
+    }
+    // --- from_* on arbitrary bytes: every length around each slice bound, for every function ---
+    for which in 0u8..4 {
+        for len in [0usize, 1, 2, 3, 19, 20, 21, 22, 23, 49, 50, 51, 52, 53] {
+            for fill in [0u8, 0xff, 0x5a] {
+                let mut db = vec![fill; len];
+                if len > 1 {
+                    db[len - 1] = fill ^ 0x33; // last byte differs from the first (index mix-ups show)
+                }
+                let class = match (which, len) {
+                    (0, 50) => "bf_from_node_exact",
+                    (0, 49) | (0, 51) => "bf_from_node_off_by_one",
+                    (0, _) => "bf_from_node_other_len",
+                    (1, 0) => "bf_from_field_empty",
+                    (1, 1) => "bf_from_field_single",
+                    (1, _) => "bf_from_field_with_tail",
+                    (2, 19) => "bf_from_map_19",
+                    (2, 20) => "bf_from_map_20_empty_key",
+                    (2, l) if l < 19 => "bf_from_map_short",
+                    (2, _) => "bf_from_map_longer",
+                    (3, 0) | (3, 1) => "bf_from_sorted_lt2",
+                    (3, 21) => "bf_from_sorted_21",
+                    (3, 22) => "bf_from_sorted_22_empty_key",
+                    (3, l) if l < 21 => "bf_from_sorted_2_to_20",
+                    (_, _) => "bf_from_sorted_longer",
+                };
+                v.push((Spec::From(which, db), c(class)));
+            }
+        }
+    }
+    // --- order of sorted keys ---
+    let pairs: Vec<([u8; 2], [u8; 2], &str)> = vec![
+        ([0, 0], [0, 0], "bf_order_same_prefix"),
+        ([0xff, 0xff], [0xff, 0xff], "bf_order_same_prefix"),
+        ([0, 0], [0, 1], "bf_order_second_byte_differs"),
+        ([5, 0xfe], [5, 0xff], "bf_order_second_byte_differs"),
+        ([0, 0xff], [1, 0], "bf_order_carry_shape"),   // little-endian / per-byte mistakes invert this
+        ([1, 0], [0, 0xff], "bf_order_carry_shape"),
+        ([0x7f, 0xff], [0x80, 0], "bf_order_sign_shape"), // signed-byte comparison mistakes invert this
+        ([0x80, 0], [0x7f, 0xff], "bf_order_sign_shape"),
+        ([0, 0x7f], [0, 0x80], "bf_order_sign_shape"),
+        ([0, 0], [0xff, 0xff], "bf_order_extremes"),
+        ([0xff, 0xff], [0, 0], "bf_order_extremes"),
+        ([1, 2], [2, 1], "bf_order_swapped_bytes"),
+    ];
+    let keys: Vec<(Vec<u8>, Vec<u8>)> = vec![
+        (vec![], vec![]),
+        (vec![], vec![0]),
+        (vec![0xff; 40], vec![]),       // longer / larger key under the smaller prefix
+        (vec![9], vec![9]),
+        (vec![0xff], vec![0]),
+        (vec![0], vec![0xff; 3]),
+    ];
+    for (p1, p2, class) in &pairs {
+        for (k1, k2) in &keys {
+            v.push((Spec::Order(*p1, k1.clone(), *p2, k2.clone()), c(class)));
+        }
+    }
+    v
+}
+
+fn random_spec(rng: &mut Rng) -> Spec {
+    let kind = rng.below(10);
+    if kind < 6 {
+        Spec::Round(gen_key(rng))
+    } else if kind < 8 {
+        let which = rng.below(4) as u8;
+        let len = match rng.below(8) {
+            0 => 0,
+            1 => rng.range(19, 23),
+            2 => rng.range(49, 51),
+            _ => rng.range(0, 60),
+        } as usize;
+        Spec::From(which, rng.bytes(len))
+    } else {
+        let p1 = gen_prefix(rng);
+        let p2 = match rng.below(5) {
+            0 => p1,
+            1 => (u16::from_be_bytes(p1).wrapping_add(1)).to_be_bytes(),
+            2 => [p1[1], p1[0]],
+            _ => gen_prefix(rng),
+        };
+        let k1 = gen_bytes(rng, 40);
+        let k2 = if rng.chance(1, 4) { k1.clone() } else { gen_bytes(rng, 40) };
+        Spec::Order(p1, k1, p2, k2)
+    }
+}
+
 fn main() {
     let args = Args::parse();
     let mut report = Report::new(
         "C16",
         args.seed,
-        "random node ids / partition numbers / field, map (len 0..80) and sorted keys mapped with SpreadPrefixKeyMapper and back; \
-         from_* on arbitrary byte strings (len 0..60); pairs of sorted keys compared in db order; \
+        "deterministic boundary family (every slice bound of from_* at -1/0/+1 for all four functions, empty/1/255/256/1024/1025-byte keys, extreme bytes, \
+         prefix-order shapes: equal, second byte, carry, sign, extremes) followed by random node ids / partition numbers / field, map (len 0..80) and sorted keys \
+         mapped with SpreadPrefixKeyMapper and back; from_* on arbitrary byte strings (len 0..60); pairs of sorted keys compared in db order; \
          non-trivial = a hashed key (node/map/sorted) round trip or an order pair with different prefixes; distinct by canonical case text",
     );
     let mut cw = CaseWriter::new("RV.Lib.Bytes RV.Model.C16_KeyMapper RV.Corr.C16_run", "check");
     let root = Rng::new(args.seed);
     // injectivity over the whole run: (which, db bytes) -> logical key
     let mut seen: BTreeMap<(u8, bool, Vec<u8>), LKey> = BTreeMap::new();
-    for i in 0..args.cases {
-        let mut rng = root.fork(i as u64);
-        let kind = rng.below(10);
-        if kind < 6 {
-            // ---- round trip ----
-            let k = gen_key(&mut rng);
+    let family = boundary_family();
+    let mut class_counts: BTreeMap<String, u64> = BTreeMap::new();
+    for (_, cl) in &family {
+        *class_counts.entry(cl.clone()).or_insert(0) += 1;
+    }
+    let mut specs: Vec<(Spec, Option<String>)> = family.into_iter().map(|(s, c)| (s, Some(c))).collect();
+    for j in 0..args.cases {
+        let mut rng = root.fork(j as u64);
+        specs.push((random_spec(&mut rng), None));
+    }
+    for (i, (spec, class)) in specs.into_iter().enumerate() {
+        if let Some(cl) = &class {
+            report.count(cl);
+        }
+        match spec {
+        Spec::Round(k) => {
             let db = to_db(&k);
             let is_part = matches!(k, LKey::Part(_));
             let back = match &db {
@@ -185,7 +309,6 @@ fn main() {
                 LKey::Map(_) => "round_map",
                 LKey::Sorted(..) => "round_sorted",
             });
-            // oracle
             match (&db, &back) {
                 (Ok(d), Some(Ok(b))) => {
                     if b != &k {
@@ -209,43 +332,38 @@ fn main() {
                     report.oracle_failure(i, "", "to_db/from_db panicked on a well-typed key", json!({"key": lkey_json(&k)}));
                 }
             }
-            if i < 3 {
+            if report.samples.len() < 3 {
                 report.sample(json!({"key": lkey_json(&k), "db": db.as_ref().ok().map(|d| hex(d))}));
             }
             let db_coq = coq_option(db.as_ref().ok().map(|d| coq_bytes(d)));
             let back_coq = coq_option(back.and_then(|b| b.ok()).map(|b| lkey_coq(&b)));
             cw.push(format!("CRound {} {} {} {}", lkey_coq(&k), coq_bytes(&hp), db_coq, back_coq));
-        } else if kind < 8 {
-            // ---- from_* on arbitrary bytes ----
-            let which = rng.below(4) as u8;
-            let len = match rng.below(8) {
-                0 => 0,
-                1 => rng.range(19, 23),
-                2 => rng.range(49, 51),
-                _ => rng.range(0, 60),
-            } as usize;
-            let db = rng.bytes(len);
+        }
+        Spec::From(which, db) => {
             let back = from_db(which, false, &db);
             report.case(&format!("F{}{}", which, hex(&db)), false);
             report.count(if back.is_ok() { "from_arbitrary_ok" } else { "from_arbitrary_panic" });
+            // oracle for the documented shape of from_* off the image: it strips exactly the prefixes
+            if let Ok(b) = &back {
+                let ok = match (which, b) {
+                    (0, LKey::Node(n)) => db.len() == 50 && n[..] == db[20..],
+                    (1, LKey::Field(f)) => !db.is_empty() && *f == db[0],
+                    (2, LKey::Map(k)) => db.len() >= 20 && k[..] == db[20..],
+                    (3, LKey::Sorted(p, k)) => db.len() >= 22 && p[..] == db[..2] && k[..] == db[22..],
+                    _ => false,
+                };
+                if !ok {
+                    report.oracle_failure(i, "", "from_db_* did not return the bytes after the fixed-length prefixes", json!({"which": which, "db": hex(&db), "back": lkey_json(b)}));
+                }
+            }
             cw.push(format!("CFrom {} {} {}", which, coq_bytes(&db), coq_option(back.ok().map(|b| lkey_coq(&b)))));
-        } else {
-            // ---- order of two sorted keys ----
-            let p1 = gen_prefix(&mut rng);
-            let p2 = match rng.below(5) {
-                0 => p1,
-                1 => (u16::from_be_bytes(p1).wrapping_add(1)).to_be_bytes(),
-                2 => [p1[1], p1[0]],
-                _ => gen_prefix(&mut rng),
-            };
-            let k1 = gen_bytes(&mut rng, 40);
-            let k2 = if rng.chance(1, 4) { k1.clone() } else { gen_bytes(&mut rng, 40) };
+        }
+        Spec::Order(p1, k1, p2, k2) => {
             let d1 = M::sorted_to_db_sort_key(&(p1, k1.clone()));
             let d2 = M::sorted_to_db_sort_key(&(p2, k2.clone()));
             let ord = d1.cmp(&d2);
             report.case(&format!("O{}{}{}{}", hex(&p1), hex(&k1), hex(&p2), hex(&k2)), p1 != p2);
             report.count(if p1 == p2 { "order_same_prefix" } else { "order_diff_prefix" });
-            // oracle: the prefix decides first
             let expect_ok = match p1.cmp(&p2) {
                 std::cmp::Ordering::Less => ord == std::cmp::Ordering::Less,
                 std::cmp::Ordering::Greater => ord == std::cmp::Ordering::Greater,
@@ -261,6 +379,20 @@ fn main() {
                 coq_bytes(&p1), coq_bytes(&k1), coq_bytes(&hp1), coq_bytes(&p2), coq_bytes(&k2), coq_bytes(&hp2), ord_coq(ord)
             ));
         }
+        }
+    }
+    // every boundary class must be generated with exactly its designed count
+    for (cl, n) in &class_counts {
+        report.floor(cl, *n);
+    }
+    for cl in [
+        "bf_round_node", "bf_round_partition", "bf_round_field", "bf_round_map", "bf_round_map_empty", "bf_round_sorted", "bf_round_sorted_empty",
+        "bf_from_node_exact", "bf_from_node_off_by_one", "bf_from_node_other_len", "bf_from_field_empty", "bf_from_field_single", "bf_from_field_with_tail",
+        "bf_from_map_19", "bf_from_map_20_empty_key", "bf_from_map_short", "bf_from_map_longer",
+        "bf_from_sorted_lt2", "bf_from_sorted_21", "bf_from_sorted_22_empty_key", "bf_from_sorted_2_to_20", "bf_from_sorted_longer",
+        "bf_order_same_prefix", "bf_order_second_byte_differs", "bf_order_carry_shape", "bf_order_sign_shape", "bf_order_extremes", "bf_order_swapped_bytes",
+    ] {
+        report.floor(cl, 1);
     }
     let n = args.cases as u64;
     report.floor("round_map", n / 20);
